@@ -93,7 +93,7 @@ def independent_argv(sub, pos, kwargs):
     return argv, stdin
 
 
-violations, counts, samples = [], {"cases": 0, "api_calls": 0, "independent_runs": 0, "cases_with_flags": 0, "raises": 0, "returns": 0, "flag_checks": 0}, []
+violations, counts, samples = [], {"cases": 0, "api_calls": 0, "independent_runs": 0, "cases_with_flags": 0, "raises": 0, "returns": 0, "flag_checks": 0, "environment_variant_calls": 0}, []
 lock = threading.Lock()
 
 
@@ -102,10 +102,13 @@ def viol(cls, key, detail, case):
         violations.append({"class": cls, "key": key, "detail": detail[:600], "case": case})
 
 
-def judge(sub, pos, kwargs):
+def judge(sub, pos, kwargs, env=None):
     fn = getattr(zerv, sub)
     key = f"{sub}({'' if pos is None else repr(pos) + ', '}{', '.join(f'{k}={v!r}' for k, v in kwargs.items())})"
     case = {"kind": "api", "function": sub, "positional": pos, "kwargs": {k: v for k, v in kwargs.items()}}
+    if env is not None:
+        key += " [caller environment " + " ".join(f"{k}={v}" for k, v in env.items()) + "]"
+        case["env"] = env
     with lock:
         counts["cases"] += 1
     _tls.argv = None
@@ -247,6 +250,34 @@ def main():
                 judge(sub, None, dict(kw))
             finally:
                 os.dup2(saved, 0); os.close(saved)
+    # "the equivalent command line" runs in the caller's environment: whatever a variable does to the command line it must do
+    # to the call. One variable set at a time in os.environ (so these calls run sequentially), chosen among those that
+    # redirect git, change logging, locale, time zone or the search path; the independent run inherits the same os.environ
+    repo2 = os.path.join(os.path.dirname(repo_dir), "store", "repo2")
+    env_variants = [
+        {"GIT_DIR": repo2 + "/.git"}, {"GIT_DIR": "/nonexistent/.git"}, {"GIT_DIR": repo2 + "/.git", "GIT_WORK_TREE": repo2}, {"GIT_WORK_TREE": repo2},
+        {"GIT_INDEX_FILE": "/nonexistent/index"}, {"GIT_CEILING_DIRECTORIES": os.path.dirname(repo_dir)}, {"GIT_OBJECT_DIRECTORY": "/nonexistent/objects"},
+        {"GIT_CONFIG_COUNT": "1", "GIT_CONFIG_KEY_0": "core.bare", "GIT_CONFIG_VALUE_0": "true"}, {"GIT_NAMESPACE": "ns"},
+        {"PATH": "/nonexistent"}, {"RUST_LOG": "trace"}, {"RUST_BACKTRACE": "full"}, {"TZ": "Pacific/Kiritimati"}, {"LC_ALL": "tr_TR.UTF-8"}, {"HOME": repo2},
+        {"NO_COLOR": "1"}, {"PYTHONIOENCODING": "latin-1"}, {"CI": "true", "GITHUB_ACTIONS": "true", "GITHUB_REF_NAME": "topic", "GITHUB_REF_TYPE": "branch"},
+    ]
+    env_calls = [("version", None, {}), ("version", None, {"repo_path": repo_dir}), ("version", None, {"repo_path": repo2}), ("version", None, {"repo_path": repo_dir, "output_format": "zerv"}),
+                 ("flow", None, {}), ("flow", None, {"repo_path": repo_dir}), ("version", None, {"source": "none", "tag_version": "1.2.3"}),
+                 ("version", None, {"stdin": STDIN_DOC, "source": "stdin"}), ("check", "1.2.3", {}), ("render", "1.2.3-rc.1", {"output_format": "pep440"})]
+    for variant in env_variants:
+        saved_env = {k: os.environ.get(k) for k in variant}
+        os.environ.update(variant)
+        try:
+            for sub, pos, kw in env_calls:
+                with lock:
+                    counts["environment_variant_calls"] += 1
+                judge(sub, pos, dict(kw), env=variant)
+        finally:
+            for k, v in saved_env.items():
+                if v is None:
+                    os.environ.pop(k, None)
+                else:
+                    os.environ[k] = v
     import stat, tempfile
     stub_dir = tempfile.mkdtemp(prefix="zvstub-", dir=os.path.dirname(out_path))
     for sig in ["KILL", "TERM", "ABRT", "SEGV"]:
